@@ -13,6 +13,7 @@
 use crate::fault::{self, Cb};
 use crate::ledger::{self, KIND_KEY, KIND_VAL};
 use std::borrow::Borrow;
+use crate::glob::Global;
 use std::cell::Cell;
 use std::fmt;
 
@@ -44,14 +45,26 @@ pub const EQ_MODES: [EqMode; 8] = [
     EqMode::FlipFlop,
 ];
 
-thread_local! {
-    static ADV_MODE: Cell<EqMode> = const { Cell::new(EqMode::Truthful) };
-    static ADV_RNG: Cell<u64> = const { Cell::new(0x1234_5678) };
-    static ADV_FLIP: Cell<bool> = const { Cell::new(false) };
-    static ADV_BORROW_ALT: Cell<bool> = const { Cell::new(false) };
-    static ADV_LIES: Cell<u64> = const { Cell::new(0) };
-    static ADV_CALLS: Cell<u64> = const { Cell::new(0) };
+struct G<T>(Global<Cell<T>>);
+impl<T: Copy> G<T> {
+    const fn new(v: T) -> Self {
+        G(Global::new(Cell::new(v)))
+    }
+    #[inline]
+    fn with<R>(&self, f: impl FnOnce(&Cell<T>) -> R) -> R {
+        self.0.with(|c| f(c))
+    }
+    #[inline]
+    fn try_with<R>(&self, f: impl FnOnce(&Cell<T>) -> R) -> Result<R, ()> {
+        Ok(self.with(f))
+    }
 }
+static ADV_MODE: G<EqMode> = G::new(EqMode::Truthful);
+static ADV_RNG: G<u64> = G::new(0x1234_5678);
+static ADV_FLIP: G<bool> = G::new(false);
+static ADV_BORROW_ALT: G<bool> = G::new(false);
+static ADV_LIES: G<u64> = G::new(0);
+static ADV_CALLS: G<u64> = G::new(0);
 
 pub fn adv_set(mode: EqMode, seed: u64, borrow_alt: bool) {
     ADV_MODE.with(|m| m.set(mode));
@@ -387,11 +400,9 @@ impl<const P: usize> fmt::Display for TVal<P> {
 // ---------------------------------------------------------------------------------------------
 // zero-sized key
 
-thread_local! {
-    static Z_NEW: Cell<u64> = const { Cell::new(0) };
-    static Z_DROP: Cell<u64> = const { Cell::new(0) };
-    static Z_EQ_ANSWER: Cell<bool> = const { Cell::new(true) };
-}
+static Z_NEW: G<u64> = G::new(0);
+static Z_DROP: G<u64> = G::new(0);
+static Z_EQ_ANSWER: G<bool> = G::new(true);
 /// Zero-sized key.  `Z == Z` answers the per-thread constant set by `z_set_eq` (default
 /// true: all equal, so a container holds at most one; false: all different, so every insert
 /// appends and capacity is enforced purely by `N`).
